@@ -3,7 +3,7 @@
 (* bound - hence all numberings of each - single-writer ones for the value   *)
 (* clause and all cyclic ones for the refusal clause.                        *)
 EXTENDS Domains, Emit
-CONSTANTS N, E, Labels, IL
+CONSTANTS N, E, Labels, IL, CK, CLabels, CMaxN
 VARIABLES stage, f
 vars == <<stage, f>>
 P == <<"C16">>
@@ -18,7 +18,13 @@ Init == stage = 0 /\ f = EmptyOH
 LoadW == stage = 0 /\ stage' = 3 /\ \E n \in 0 .. N : f' = OH([i \in 1 .. n |-> 0], <<>>, <<>>, <<>>)
 LoadE == stage = 3 /\ stage' = 2 /\ \E e \in SeqsUpTo(TypedEdges(NN(f)), E) : f' = OH(f.w, e, <<>>, <<>>)
 LoadI == stage = 2 /\ stage' = 1 /\ \E s \in SeqsUpTo(Range0(NN(f)), IL), t \in SeqsUpTo(Range0(NN(f)), IL) : f' = OH(f.w, f.e, s, t) /\ Emits(f')
-Next == LoadW \/ LoadE \/ LoadI
+\* larger circuits, cheaply: all monogamous circuits with at most CK operations (any wiring, any edge order,
+\* any permutation of the interface): diamonds of unequal depth, fan-out through copies, several outputs
+LoadLabels == stage = 0 /\ stage' = 4 /\ \E ls \in SeqsUpTo(CLabels, CK), ni \in 0 .. 2 :
+   LET n == ni + SumSeq([k \in 1 .. Len(ls) |-> Coarity(ls[k])]) IN
+   Len(ls) >= 2 /\ n <= CMaxN /\ n >= SumSeq([k \in 1 .. Len(ls) |-> Arity(ls[k])]) /\ f' = OH(<<>>, <<>>, ls, <<ni, n>>)
+LoadWiring == stage = 4 /\ stage' = 1 /\ \E p \in Perms0(f.t[2]) : f' = Circuit(f.s, f.t[1], p) /\ Emits(f')
+Next == LoadW \/ LoadE \/ LoadI \/ LoadLabels \/ LoadWiring
 Spec == Init /\ [][Next]_vars
 
 \* transcription of eval_order: memory array, one step per layer
@@ -41,7 +47,6 @@ LayeredTheorem == stage = 1 /\ SingleWriter(f) /\ DepAcyclic(f) /\ NE(f) > 0 => 
 \* the reference function does not depend on the numbering of nodes and hyperedges
 PermNodes(d, p) == OH(d.w, [i \in 1 .. NE(d) |-> MapE(d.e[i], p)], Thru(d.s, p), Thru(d.t, p))
 PermEdges(d, p) == OH(d.w, [i \in 1 .. NE(d) |-> d.e[p[i] + 1]], d.s, d.t)
-Perms0(n) == {p \in [1 .. n -> Range0(n)] : RangeOf(p) = Range0(n)}
 NumberingTheorem ==
   stage = 1 /\ SingleWriter(f) /\ DepAcyclic(f) /\ NE(f) > 0 =>
     /\ \A p \in Perms0(NN(f)) : EvalRef(PermNodes(f, p), X1(Len(f.s))) = EvalRef(f, X1(Len(f.s)))
